@@ -235,6 +235,12 @@ type VC struct {
 	prelude     []*preludeEntry
 	sentinels   []Term
 	flagsUsed   []string
+	frameOn     bool
+	topEntry    Term
+	modRefs     map[string][]Term
+	modWhole    map[string]bool
+	loopNest    int
+	curState    *State
 	writtenRefs map[string]map[string]bool
 	pendingRef  string
 	opaqueDefs  map[string]string
@@ -412,6 +418,7 @@ func (vc *VC) epochGet(ep *epoch, comp string) Term {
 func (vc *VC) heapSet(st *State, comp string, t Term) {
 	st.heap.known[comp] = t
 	vc.written[comp] = true
+	vc.loopWriteCheck(st, comp, vc.pendingRef, tTrue)
 	// a write that does not go through setRoot is not attributable to one reference
 	if vc.pendingRef == "" {
 		vc.noteWriteRef(comp, "*")
@@ -616,6 +623,22 @@ func (vc *VC) refOf(p *Place) Term {
 	if (p.Kind == BPtr || p.Kind == BArr) && len(p.Path) == 0 {
 		return p.Ref
 	}
+	// A pointer to a field/element/local is being stored as a value. The model has no interior references:
+	// the pointer becomes a fresh object holding a snapshot of the current contents (reads through it are
+	// right as long as neither side is written afterwards). Reported as an abstraction.
+	if vc.curState != nil && p.Typ != nil {
+		st := vc.curState
+		if _, isArr := p.Typ.Underlying().(*types.Array); !isArr || isU256(p.Typ) {
+			vc.note("interior pointer stored as a value: snapshot semantics (" + typeKey(p.Typ) + ")")
+			ref := st.top
+			st.top = vc.define("top", mk(fmt.Sprintf("(+ %s 1)", ref.S), sortRef))
+			comp := vc.ptrComp(p.Typ)
+			val := vc.loadPlace(st, p)
+			h := vc.heapGet(st.heap, comp)
+			st.heap.known[comp] = vc.define(comp, tStore(h, ref, val))
+			return ref
+		}
+	}
 	vc.errorf("interior or local pointer escapes into a value (place %s)", p.Comp)
 	return mk("0", sortRef)
 }
@@ -726,4 +749,34 @@ func sortedKeys(m map[string]int) []string {
 	}
 	sort.Strings(ks)
 	return ks
+}
+
+// loopWriteCheck: inside loops of a function with a modifies clause, every heap write must go to an object
+// allocated by this call or to a declared modifies target (this is what lets the loop keep the frame).
+func (vc *VC) loopWriteCheck(st *State, comp string, ref string, guard Term) {
+	if !vc.frameOn || vc.loopNest == 0 || vc.dry > 0 || ref == "" || vc.modWhole[comp] {
+		return
+	}
+	if !(strings.HasPrefix(comp, "A:") || strings.HasPrefix(comp, "P:") || strings.HasPrefix(comp, "M:")) {
+		return
+	}
+	if ref == "*" {
+		vc.oblige(st, vc.top, "frame.loopwrite", comp, tFalse, "write inside a loop to an unknown object of "+comp, 0)
+		return
+	}
+	r := mk(ref, sortRef)
+	alts := []Term{mk(app(">=", r, vc.topEntry), sortBool)}
+	for _, m := range vc.modRefs[comp] {
+		alts = append(alts, tEq(r, m))
+	}
+	goal := tImp(guard, tOr(alts...))
+	if goal.S == "true" {
+		return
+	}
+	key := "lw:" + comp + ":" + ref
+	if st.checked(key) {
+		return
+	}
+	st.mark(key)
+	vc.oblige(st, vc.top, "frame.loopwrite", strings.ReplaceAll(comp, " ", ""), goal, "a write inside a loop goes to a fresh object or a modifies target", 0)
 }
